@@ -353,6 +353,19 @@ def expected(site, ex):
         if not is_ssl and code == errno.ETIME:
             return None
         return "Raise" if not is_ssl else None
+    propagate = ("Raise", "RaiseClose")
+    if meth == "handshake":
+        if isinstance(ex, (ssl.SSLWantReadError, ssl.SSLWantWriteError)):
+            return "Quiet"
+        if is_ssl and code in (2, 3):
+            return None
+        return propagate
+    if site.startswith("Acceptor.accept") or site.startswith("SocketUdpNb.receive"):
+        if not is_ssl and code in (errno.EAGAIN, errno.EWOULDBLOCK):
+            return "Quiet"
+        return propagate if not is_ssl else None
+    if site.startswith("Client.accept") or site.startswith("SocketUdpNb.send"):
+        return propagate if not is_ssl else None
     return None
 
 
@@ -419,7 +432,7 @@ def run(ctx):
         cases = [("map (classify %s) %s" % (translate.ident(site), clist([r[1] for r in per_site[site]], "errval")),
                   clist([r[2] for r in per_site[site]], "action")) for site in order]
         try:
-            bad_sites = ctx.coq_cases(header, "la_eqb", cases, shard=2)
+            bad_sites = ctx.coq_cases(header, "la_eqb", cases, shard=5)
             fine, metas = [], []
             for i in bad_sites:
                 for label, lit, got in per_site[order[i]]:
@@ -435,7 +448,8 @@ def run(ctx):
         ctx.extra["mismatches"] = len(bad)
 
     def search():
-        fails = [(s, l, g, w) for s, l, g, w in observed if w is not None and g != w]
+        fails = [(s, l, g, w) for s, l, g, w in observed
+                 if w is not None and (g not in w if isinstance(w, tuple) else g != w)]
         if not fails:
             return None
         tls = [f for f in fails if "Tls" in f[0]]
